@@ -6,6 +6,7 @@
 -/
 import FunsorVerif.Model.C16
 import FunsorVerif.Props.C16.Trans
+import FunsorVerif.Props.C16.Sound
 import FunsorVerif.Gen.C16Table
 namespace FV.Props.C16
 open FV.C16
@@ -114,5 +115,33 @@ theorem live_sub_trans (a b c : Ty)
     (hab : sub table.env true a b = true) (hbc : sub table.env true b c = true) :
     sub table.env true a c = true :=
   sub_trans table.env table_ok a b c hwa hwb hwc hkb hkc hab hbc
+
+/-- classes whose metaclass answers instead of raising on a typing generic are not above tuple/frozenset -/
+def raisesCheckT (T : Table) : Bool :=
+  (List.range T.raises.length).all fun k =>
+    T.raises.getD k true || (!T.L T.kTuple k && !T.L T.kFs k)
+
+theorem raisesOK_of_check (T : Table) (h : raisesCheckT T = true) : RaisesOK T.env := by
+  intro k hk
+  simp only [Table.env] at hk
+  by_cases hl : k < T.raises.length
+  · simp only [raisesCheckT, List.all_eq_true, List.mem_range, Bool.or_eq_true, Bool.and_eq_true,
+      Bool.not_eq_true'] at h
+    rcases h k hl with h1 | h1
+    · rw [h1] at hk; cases hk
+    · exact h1
+  · simp [List.getD, List.getElem?_eq_none (Nat.le_of_not_lt hl)] at hk
+
+open FV.Gen.C16 in
+theorem table_raises_check : raisesCheckT table = true := by decide +kernel
+
+open FV.Gen.C16 in
+theorem table_raises_ok : RaisesOK table.env := raisesOK_of_check table table_raises_check
+
+open FV.Gen.C16 in
+/-- on the live table: a value returned by the three-valued model (the one compared with the real
+    `deep_issubclass` on every pool pair) is the value of the relation the order theorems are about -/
+theorem live_subE_sound (a b : Ty) : RSound (subE table.env a b) (sub table.env true a b) :=
+  subE_sound table.env table_raises_ok a b
 
 end FV.Props.C16
